@@ -31,6 +31,7 @@ type multicastProxy struct {
 	udpConn  *net.UDPConn
 	destAddr [rtpChannelCount]*net.UDPAddr
 	cid      media.CID
+	source   *media.Stream // 代理所消费的流(StartConsume 的对象)
 
 	multicastLock sync.Mutex
 	members       []io.Closer
@@ -62,6 +63,7 @@ func (proxy *multicastProxy) AddMember(m io.Closer) {
 			}
 		}
 
+		proxy.source = stream
 		proxy.cid = stream.StartConsume(proxy, media.RTPPacket,
 			"net = rtsp-multicast, "+proxy.multicastIP)
 		proxy.closed = false
@@ -146,9 +148,10 @@ func (proxy *multicastProxy) close() {
 	}
 	proxy.closed = true
 
-	stream := media.Get(proxy.path)
-	if stream != nil {
-		stream.StopConsume(proxy.cid)
+	// 从开始消费的那个流上停止消费；按 path 重新查找可能得到替换它的新流
+	if proxy.source != nil {
+		proxy.source.StopConsume(proxy.cid)
+		proxy.source = nil
 	}
 
 	if proxy.udpConn != nil {
